@@ -600,3 +600,78 @@ func helperTouches(h *ssa.Function, depth int, pred func(ssa.Instruction) bool) 
 	}
 	return false
 }
+
+// mapEntry is one key/value pair of a package-level map literal.
+type mapEntry struct {
+	Key, Val ssa.Value
+	Pos      token.Pos
+}
+
+// globalMapEntries: the entries with which the package-level map g is
+// initialised (its composite literal, evaluated in the package initialiser),
+// and whether that is the only place the map is ever assigned or updated.
+func globalMapEntries(c *core.Ctx, g *ssa.Global) (entries []mapEntry, frozen bool) {
+	if g == nil || g.Pkg == nil {
+		return nil, false
+	}
+	init := g.Pkg.Func("init")
+	if init == nil {
+		return nil, false
+	}
+	var mk ssa.Value
+	nStores := 0
+	for _, b := range init.Blocks {
+		for _, in := range b.Instrs {
+			if st, ok := in.(*ssa.Store); ok && st.Addr == ssa.Value(g) {
+				mk = st.Val
+				nStores++
+			}
+		}
+	}
+	if mk == nil || nStores != 1 {
+		return nil, false
+	}
+	for _, b := range init.Blocks {
+		for _, in := range b.Instrs {
+			if mu, ok := in.(*ssa.MapUpdate); ok && mu.Map == mk {
+				entries = append(entries, mapEntry{mu.Key, mu.Value, mu.Pos()})
+			}
+		}
+	}
+	frozen = true
+	for _, fn := range c.P.AllFunctions() {
+		if fn == init || !load.InModule(fn) || load.FuncPkgPath(fn) != g.Pkg.Pkg.Path() {
+			continue
+		}
+		for _, b := range fn.Blocks {
+			for _, in := range b.Instrs {
+				switch x := in.(type) {
+				case *ssa.Store:
+					if x.Addr == ssa.Value(g) {
+						frozen = false
+					}
+				case *ssa.MapUpdate:
+					if u, ok := x.Map.(*ssa.UnOp); ok && u.X == ssa.Value(g) {
+						frozen = false
+					}
+				case *ssa.Call:
+					if bi, ok := x.Call.Value.(*ssa.Builtin); ok && (bi.Name() == "delete" || bi.Name() == "clear") && len(x.Call.Args) > 0 {
+						if u, ok := x.Call.Args[0].(*ssa.UnOp); ok && u.X == ssa.Value(g) {
+							frozen = false
+						}
+					}
+				}
+			}
+		}
+	}
+	return entries, frozen
+}
+
+// loadedGlobal: v is a load of a package-level variable.
+func loadedGlobal(v ssa.Value) *ssa.Global {
+	if u, ok := v.(*ssa.UnOp); ok && u.Op == token.MUL {
+		g, _ := u.X.(*ssa.Global)
+		return g
+	}
+	return nil
+}
